@@ -166,8 +166,20 @@ impl Table for Srat {
 
 // ------------------------------------------------------------------ SLIT
 pub struct Slit;
+pub fn slit_pair(op: &Op) -> (usize, usize) {
+    if op.shape == 0xffff {
+        (op.fill.u16(1) as usize, op.fill.u16(2) as usize)
+    } else {
+        ((op.shape & 255) as usize, (op.shape >> 8) as usize)
+    }
+}
 pub fn slit_op(a: usize, b: usize, v: u8) -> Op {
-    Op { k: 0, shape: (a as u16) | ((b as u16) << 8), fill: Fill::b(0).with(0, v as u64) }
+    // small indices travel in the shape; indices above 255 in two argument overrides under the marker shape 0xffff
+    if a < 256 && b < 255 {
+        Op { k: 0, shape: (a as u16) | ((b as u16) << 8), fill: Fill::b(0).with(0, v as u64) }
+    } else {
+        Op { k: 0, shape: 0xffff, fill: Fill::b(0).with(0, v as u64).with(1, a as u64).with(2, b as u64) }
+    }
 }
 impl Table for Slit {
     fn name(&self) -> &'static str {
@@ -180,7 +192,7 @@ impl Table for Slit {
         if level == 0 {
             vec![Ctor::new(2, 3, 2)]
         } else {
-            vec![Ctor::new(2, 3, 2), Ctor::new(0, 0, 0), Ctor::new(1, 1, 1), Ctor::new(2, 2, 2), Ctor::new(2, 60, 2)]
+            vec![Ctor::new(2, 3, 2), Ctor::new(0, 0, 0), Ctor::new(1, 1, 1), Ctor::new(2, 2, 2), Ctor::new(2, 60, 2), Ctor::new(2, 256, 2), Ctor::new(1, 300, 2)]
         }
     }
     fn alphabet(&self, c: &Ctor, _h: &[Op], level: u8) -> Vec<Op> {
@@ -207,7 +219,8 @@ impl Table for Slit {
         let mut t = SLIT::new(c.oem_id(), c.oem_table_id(), c.oem_rev(), c.p);
         obs(0, &t, &[]);
         for (i, op) in ops.iter().enumerate() {
-            t.set_distance((op.shape & 255) as usize, (op.shape >> 8) as usize, op.fill.u8(0));
+            let (a, b) = slit_pair(op);
+            t.set_distance(a, b, op.fill.u8(0));
             obs(i + 1, &t, &[]);
         }
     }
@@ -216,7 +229,7 @@ impl Table for Slit {
         let l = c.p as usize;
         let mut m = vec![10u8; l * l];
         for op in ops {
-            let (a, b) = ((op.shape & 255) as usize, (op.shape >> 8) as usize);
+            let (a, b) = slit_pair(op);
             m[a * l + b] = op.fill.u8(0);
             m[b * l + a] = op.fill.u8(0);
         }
